@@ -1025,6 +1025,21 @@ func init() {
 			{K: "mkdirall", P: "etc", N: 0o755}, {K: "writefile", P: "etc/motd", D: "welcome\n", N: 0o644}, {K: "writefile", P: "etc/a", D: "aaaa", N: 0o644}, {K: "writefile", P: "etc/b", D: "bbbbb", N: 0o644},
 			{K: "writefile", P: "etc/motd", D: "", N: 0o644}, {K: "create", P: "etc/a"}, {K: "open", P: "etc/b", M: os.O_RDWR | os.O_TRUNC, N: 0o644}}},
 			"plain files truncated: the layer has empty files")
+		// round 5: the context becomes done while the layer is written (suite_tar_cancel.go): the call fails or the layer is complete
+		cancelOps := []fsOp{{K: "mkdirall", P: "etc", N: 0o755}, {K: "mkdirall", P: "opt/app", N: 0o755}, {K: "mkdirall", P: "usr/bin", N: 0o755}, {K: "mkdirall", P: "var/empty", N: 0o755},
+			{K: "writefile", P: "etc/passwd", D: "root:x:0:0:root:/root:/bin/sh\n", N: 0o644}, {K: "writefile", P: "etc/group", D: "root:x:0:root\n", N: 0o644},
+			{K: "writefile", P: "opt/app/main", D: "#!/bin/sh\n", N: 0o755}, {K: "writefile", P: "usr/bin/tool", D: "tool", N: 0o755}, {K: "symlink", P: "usr/bin/alias", Q: "tool"},
+			{K: "writefile", P: "var/empty/keep", D: "", N: 0o644}}
+		put("cancel-single-mid-walk-memfs", tarCase{Kind: "fs", Backend: "memfs", Ops: cancelOps, Cancel: &tarCancel{Path: "single", At: "fscall", K: 8, Err: "canceled"}},
+			"the context is cancelled by a file-system call in the middle of the walk of ImageLayoutToLayer")
+		put("cancel-single-deadline-tarfs", tarCase{Kind: "fs", Backend: "tarfs", Ops: cancelOps, Cancel: &tarCancel{Path: "single", At: "check", K: 6, Err: "deadline"}},
+			"the deadline passes between two callback invocations of the walk of ImageLayoutToLayer")
+		put("cancel-multi-mid-walk-tarfs", tarCase{Kind: "fs", Backend: "tarfs", Ops: append([]fsOp{reg("usr/bin/pkgtool", "pkg", "p"), reg("etc/motd", "hi\n", "q")}, cancelOps...), Cancel: &tarCancel{Path: "multi", At: "fscall", K: 12, Err: "canceled"}},
+			"the context is cancelled in the middle of the walk of splitLayers (two package layers and the top layer)")
+		put("cancel-writetar-last-check-memfs", tarCase{Kind: "fs", Backend: "memfs", Ops: cancelOps, Cancel: &tarCancel{Path: "writetar", At: "check", K: 13, Err: "canceled"}},
+			"the context is done at the callback invocation for the last entry (13 entries + root): error; one later would be a complete layer")
+		put("cancel-after-walk-memfs", tarCase{Kind: "fs", Backend: "memfs", Ops: cancelOps, Cancel: &tarCancel{Path: "single", At: "check", K: 14, Err: "canceled"}},
+			"the context is never looked at again after the last callback invocation: complete layer")
 		// end to end: a package whose hard link sorts before its target, one whose hard link sorts after
 		pk := func(link string) []SPkg {
 			return []SPkg{{Name: "p", Version: "1.0-r0", Origin: "p", Files: []SFile{
